@@ -71,7 +71,7 @@ class TlcResult:
 
 _RE_STATES = re.compile(r"^(\d+) states generated, (\d+) distinct states found")
 _RE_DEPTH = re.compile(r"^The depth of the complete state graph search is (\d+)")
-_RE_COV = re.compile(r"^<(\w+) line \d+, col \d+ to line \d+, col \d+ of module (\w+)>: (\d+):(\d+)")
+_RE_COV = re.compile(r"^<(\w+) line \d+, col \d+ to line \d+, col \d+ of module (\w+)[^>]*>: (\d+):(\d+)")
 _RE_SIMSTATES = re.compile(r"^The number of states generated: (\d+)")
 
 
